@@ -184,6 +184,8 @@ func effectsPass(w *World, id string) []*OwnOb {
 			add(fi.Key+".effects[no-package-state]", "effects", bad == "", posStr(w, fi.Decl.Pos()), "writes the package-level variable "+bad+": evaluations are no longer independent of each other")
 		}
 		out = append(out, checkMapRanges(w, lib)...)
+	case "C05":
+		out = append(out, checkFormatTable(w)...)
 	case "C20":
 		out = append(out, checkWrapper(w)...)
 	case "C08":
@@ -644,4 +646,74 @@ func commutingStore(rs *ast.RangeStmt, info *types.Info) bool {
 		return true // keyed by the document ID of the value stored (set union)
 	}
 	return false
+}
+
+// checkFormatTable: C05 — the format table registers exactly the documented names, the aliases share the codec of the
+// name they alias (yml = yaml, jsonl = json), json-pretty decodes as json, and every format has an encoder and a decoder.
+func checkFormatTable(w *World) []*OwnOb {
+	lib := w.Pkgs["."]
+	if lib == nil {
+		return nil
+	}
+	type ent struct{ m, u string }
+	table := map[string]ent{}
+	pos := ""
+	for _, f := range lib.Syntax {
+		ast.Inspect(f, func(n ast.Node) bool {
+			vs, ok := n.(*ast.ValueSpec)
+			if !ok || len(vs.Names) != 1 || vs.Names[0].Name != "formatByExtension" || len(vs.Values) != 1 {
+				return true
+			}
+			cl, ok := vs.Values[0].(*ast.CompositeLit)
+			if !ok {
+				return true
+			}
+			pos = posStr(w, vs.Pos())
+			for _, el := range cl.Elts {
+				kv, ok := el.(*ast.KeyValueExpr)
+				if !ok {
+					continue
+				}
+				name := strings.Trim(exprString(kv.Key), "\"")
+				var en ent
+				if inner, ok := kv.Value.(*ast.CompositeLit); ok {
+					for _, fe := range inner.Elts {
+						if fkv, ok := fe.(*ast.KeyValueExpr); ok {
+							switch exprString(fkv.Key) {
+							case "MarshalStream":
+								en.m = exprString(fkv.Value)
+							case "UnmarshalStream":
+								en.u = exprString(fkv.Value)
+							}
+						}
+					}
+				}
+				table[name] = en
+			}
+			return true
+		})
+	}
+	var names []string
+	for n := range table {
+		names = append(names, n)
+	}
+	sort.Strings(names)
+	want := "json json-pretty jsonl toml yaml yml"
+	ob := func(key string, ok bool, why string) *OwnOb {
+		return &OwnOb{Key: ".:formatByExtension.effects[" + key + "]", Kind: "effects", OK: ok, Pos: pos, Why: why}
+	}
+	complete := true
+	for _, e := range table {
+		if e.m == "" || e.u == "" {
+			complete = false
+		}
+	}
+	return []*OwnOb{
+		ob("registered names", strings.Join(names, " ") == want, "the format table must register exactly: "+want+"; found: "+strings.Join(names, " ")),
+		ob("yml is yaml", table["yml"] == table["yaml"] && table["yaml"].m != "", "yml must use the codec of yaml"),
+		ob("jsonl is json", table["jsonl"] == table["json"] && table["json"].m != "", "jsonl must use the codec of json"),
+		ob("json-pretty decodes as json", table["json-pretty"].u == table["json"].u && table["json-pretty"].m != table["json"].m && table["json-pretty"].m != "", "json-pretty must decode with the json decoder and encode with its own encoder"),
+		ob("every format encodes and decodes", complete && len(table) > 0, "every registered format needs both MarshalStream and UnmarshalStream"),
+		ob("codecs match their names", strings.HasPrefix(table["toml"].m, "toml") && strings.HasPrefix(table["toml"].u, "toml") && strings.HasPrefix(table["yaml"].m, "yaml") && strings.HasPrefix(table["yaml"].u, "yaml") && strings.HasPrefix(table["json"].m, "json") && strings.HasPrefix(table["json"].u, "json"), "each format must be registered with the codec functions of its own name"),
+	}
 }
